@@ -147,6 +147,35 @@ func parseMouseEvent(seq ansi.CSI) (Mouse, bool)
                         + (seq.Parameters[0][0] & 8  != 0 ? ModAlt   : 0)
                         + (seq.Parameters[0][0] & 16 != 0 ? ModCtrl  : 0)
 
+-- ------------------------------------------------------------------ key matching (C09)
+-- modifier masks are 8-bit sets (Shift Alt Ctrl Super Hyper Meta CapsLock NumLock)
+bits ModifierMask 8
+ufun unicode_IsLetter(r rune) bool
+ufun unicode_IsGraphic(r rune) bool
+ufun unicode_IsLower(r rune) bool
+ufun unicode_ToUpper(r rune) rune
+
+pred MaskOK(m ModifierMask) = 0 <= m && m < 256
+rec orfold(ms []ModifierMask, n int) ModifierMask = n <= 0 ? 0 : (orfold(ms, n - 1) | ms[n-1])
+
+func (k Key) Matches(key rune, modifiers ...ModifierMask) bool
+  requires range: MaskOK(k.Modifiers) && (forall i in 0..len(modifiers): MaskOK(modifiers[i]))
+  -- mods is the union of the binding's masks
+  unfold orfold
+  loop 1 invariant fold: MaskOK(mods) && -1 <= rangeindex && rangeindex < len(modifiers) && mods == orfold(modifiers, rangeindex + 1)
+  -- a binding matches only if Ctrl, Alt, Super, Hyper and Meta are identical
+  exit assert C09_sound: result ==> ((kMods / 2) % 32 == (mods / 2) % 32)
+  -- Caps Lock and Num Lock never take part in any comparison
+  exit assert C09_locks: mods < 64 && kMods < 64 && mods == unshiftedMods + (mods % 2) && kMods == unshiftedkMods + (kMods % 2)
+                      && unshiftedMods % 2 == 0 && unshiftedkMods % 2 == 0
+  -- Shift is forgiven only in the documented ways (rules 3, 5, 6)
+  exit assert C09_shift: (result && (kMods % 2) != (mods % 2)) ==>
+        (   (k.ShiftedCode == old(key) && mods == unshiftedkMods)
+         || (!unicode_IsLetter(old(key)) && unicode_IsGraphic(old(key)) && (k.Keycode == old(key) || k.ShiftedCode == old(key)))
+         || (mods % 2 == 1 && unicode_IsLower(old(key))))
+  -- the chord the user pressed always matches its own binding
+  ensures C09_self: (key == k.Keycode && len(modifiers) == 1 && modifiers[0] == k.Modifiers) ==> result
+
 -- ------------------------------------------------------------------ colours (C07)
 
 pred chR(v uint32) = (v >> 16) & 255
